@@ -151,7 +151,8 @@ pub fn run_builder_case(regs: &[Reg], b: &[u8]) -> Result<Result<Vec<Vec<u8>>, D
                 Reg::Fixed(n) => builder.register_type_parameterized(true, *n)?,
                 // the three public ways of registering a variable-size item
                 Reg::Var => match k % 3 {
-                    0 => builder.register_type_parameterized(false, 4)?,
+                    // the second parameter is documented as irrelevant for variable-size items
+                    0 => builder.register_type_parameterized(false, [4usize, 0, 1, 8, 4096, usize::MAX][(k / 3 + b.len()) % 6])?,
                     1 => builder.register_anonymous_variable_length_item()?,
                     _ => builder.register_type::<Vec<u8>>()?,
                 },
@@ -500,6 +501,46 @@ pub fn run_listvar(ctx: &mut Ctx) {
         let (s, calls, hint, res) = listvar_case::<Refusing>(&b, None, |_| vec![]);
         ctx.out.m("listvar", &listvar_line(&s, &calls, hint), &["listvar", "-", "r", &hx]);
         ctx.out.r("C16", "listvar", matches!(res, Ok(None)), &["refusing_collection_is_error", "listvar", "-", "r", &hx]);
+    }
+}
+
+/// long registration sequences (more items than any inline small-vector or narrow index type holds):
+/// only the implementation-side oracles, the model is not asked
+pub fn run_builder_big(ctx: &mut Ctx) {
+    let mut g = crate::rng::Rng::new(ctx.seed ^ 0xb16);
+    for n in [9usize, 17, 255, 256, 257, 300, 1000, 65537] {
+        // (`decode_next` is quadratic in the number of items: the longest sequence is run once)
+        let positions: Vec<usize> = if n > 10000 { vec![n / 2] } else { vec![0usize, n / 2, n - 1] };
+        for var_at in positions {
+            // n items: one-byte fixed items, with variable items at `var_at` and at the end
+            let regs: Vec<Reg> = (0..n).map(|i| if i == var_at || i == n - 1 { Reg::Var } else { Reg::Fixed(1) }).collect();
+            let items: Vec<Vec<u8>> = regs.iter().enumerate().map(|(i, r)| match r {
+                Reg::Fixed(_) => vec![(i % 251) as u8],
+                Reg::Var => { let l = 1 + g.below(3); g.bytes(l) }
+            }).collect();
+            let e = encode_items(&regs, &items, &[]);
+            let r = run_builder_case(&regs, &e);
+            let tag = format!("n={} var_at={}", n, var_at);
+            ctx.out.r("C09", "builder", matches!(&r, Ok(Ok(got)) if *got == items), &["long_layout_accepted_and_items_in_order", "builder-big", &tag]);
+            ctx.out.r("C05", "builder", r.is_ok(), &["long_sequence_no_panic", "builder-big", &tag]);
+            ctx.out.r("C01", "builder", matches!(&r, Ok(Ok(got)) if *got == items), &["long_layout_roundtrip", "builder-big", &tag]);
+            if n > 10000 {
+                continue;
+            }
+            // one byte too many / too few must be rejected
+            let mut longer = e.clone();
+            longer.push(0);
+            let r2 = run_builder_case(&regs, &longer);
+            ctx.out.r("C05", "builder", r2.is_ok(), &["long_sequence_no_panic", "builder-big", &tag]);
+            if n > 1 {
+                let r3 = run_builder_case(&regs, &e[..e.len() - 1]);
+                ctx.out.r("C05", "builder", r3.is_ok(), &["long_sequence_no_panic", "builder-big", &tag]);
+                if let Ok(Ok(got)) = &r3 {
+                    let re = encode_items(&regs, got, &[]);
+                    ctx.out.r("C09", "builder", re == e[..e.len() - 1], &["slices_tile_input", "builder-big", &tag]);
+                }
+            }
+        }
     }
 }
 
